@@ -266,7 +266,7 @@ func (k *checker) reparse(alpha []byte, order *int64) {
 				c.Report(fw.Violation{Fingerprint: "Labels.FromBytes|failed-parse-changes-the-object", Order: b0 + i, Scope: "f:failed-parse",
 					Input:    "a label set " + how + "; then X.FromBytes(" + fw.HexShort(R) + ") returns an error",
 					Observed: "afterwards X.ToBytes() = " + fw.HexShort(got) + ", X.Labels = " + q(names), Expected: "still " + fw.HexShort(wantB) + " and " + q(A.names),
-					Explain:  "decoding either fails or yields names: a failed decode must not leave the rejected bytes (or anything else) in the set, whose names were not changed"})
+					Explain: "decoding either fails or yields names: a failed decode must not leave the rejected bytes (or anything else) in the set, whose names were not changed"})
 			}
 		}
 	})
